@@ -792,9 +792,9 @@ class C17(Prop):
         return tuple(q)
 
     def case_pipeline(self, rng):
-        mn = rng.choice([10, 10, 3, 1, 2, 0, -1])
+        mn = rng.choice([10, 10, 3, 1, 2, 5, 10, 3, 1, 2, 5, 0, -1]) if rng.random() < 0.5 else rng.choice([10, 3, 1, 2])
         tol = rng.choice([F(2), F(2), F(2), F(1), F(1, 2), F(3), F(0)])
-        vt = rng.choice([F(1, 2), F(1, 2), F(1, 2), F(0), F(-1)])
+        vt = rng.choice([F(1, 2), F(1, 2), F(1, 2), F(1, 2), F(2), F(0), F(-1)]) if rng.random() < 0.4 else F(1, 2)
         stab = rng.choice([100, 100, 2, 0, 3])
         cap = rng.choice([1000, 1000, 2, 1, 0, 3])
         rules = [f"{rng.choice(LEVELS)}:{rng.choice(CONDS[:-1] if rng.random() < 0.9 else CONDS)}"
@@ -861,6 +861,32 @@ class C17(Prop):
                 lines.append(f"pinspect {rng.choice([0, 1, 2, 3])}")
         return {"lines": lines, "note": "pipeline"}
 
+    def case_pipeline_anergy(self, rng):
+        """desensitise the watcher of an agent whose threat is (optionally) already remembered, then show the threat"""
+        stab = rng.choice([100, 100, 0])
+        rules = [f"{rng.choice(LEVELS)}:{rng.choice(CONDS[:-1])}" for _ in range(rng.choice([0, 0, 1, 2]))]
+        lines = [" ".join(["sys", str(rng.choice([10, 3, 1])), "2", "1/2", str(stab), str(rng.choice([1000, 2])) ] + rules)]
+        a = rng.choice([0, 1])
+        base = self.grid_fp(rng)[:9] + (None,)
+        threat = base[:2] + (base[2] + F(8),) + base[3:]
+        lines += [f"reg {a}", f"show {a} " + " ".join(fp_tokens(base)), f"train {a}"]
+        remembered = rng.random() < 0.7
+        if remembered:
+            lines += [f"show {a} " + " ".join(fp_tokens(threat))] + [f"pinspect {a}"] * rng.choice([3, 3, 4])
+            lines.append(f"preset {a}")
+        other = threat[:7] + (7,) + threat[8:]           # same anomaly under a structure hash that is not remembered
+        n_fa = rng.choice([5, 5, 5, 4, 6])
+        for _ in range(n_fa):
+            lines += [f"show {a} " + " ".join(fp_tokens(other)), f"pinspect {a}", f"presetfa {a}"]
+        if rng.random() < 0.5:
+            lines.append(f"pflag {a} 1")
+        lines += [f"show {a} " + " ".join(fp_tokens(threat)), f"pinspect {a}", f"pinspect {a}"]
+        if rng.random() < 0.5:
+            lines += [f"show {a} " + " ".join(fp_tokens(base)), f"pinspect {a}"]
+        if rng.random() < 0.4:
+            lines += [f"train {a}", f"pinspect {a}", f"show {a} " + " ".join(fp_tokens(threat)), f"pinspect {a}"]
+        return {"lines": lines, "note": "pipeline anergy drill"}
+
     def case_malformed(self, rng):
         junk = ["", "inspect", "inspect 1 2 3", "tcell 3 5", "evaluate none", "pinspect", "show 0", "train", "frobnicate 1",
                 "ttrain 0 0 0", "treset", "flag 1", "check 1 2 3 4 5 6 7 8 9 none", "sample 1 2"]
@@ -871,7 +897,9 @@ class C17(Prop):
         produced = 0
         while produced < n:
             x = rng.random()
-            if x < 0.36:
+            if x < 0.06:
+                c = self.case_pipeline_anergy(rng)
+            elif x < 0.36:
                 c = self.case_pipeline(rng)
             elif x < 0.68:
                 c = self.case_tcell(rng)
